@@ -56,6 +56,7 @@ type Define struct {
 	Name   string
 	Params []string
 	Body   string
+	Axiom  bool // `instance`: a defining equation of a specification function, assumed where applied
 }
 
 type Contracts struct {
@@ -171,11 +172,11 @@ func parseContracts(path string) (*Contracts, error) {
 				}
 			}
 			cur = nil
-		case "define":
+		case "define", "instance":
 			i := strings.Index(rest, "=")
 			head := strings.TrimSpace(rest[:i])
 			name, params, _ := parseSig(head)
-			d := &Define{Name: name, Params: params, Body: strings.TrimSpace(rest[i+1:])}
+			d := &Define{Name: name, Params: params, Body: strings.TrimSpace(rest[i+1:]), Axiom: kw == "instance"}
 			c.Defines[name] = d
 			lastDef = d
 			cur = nil
@@ -271,7 +272,7 @@ func parseContracts(path string) (*Contracts, error) {
 				cl.Expr = rest
 				cur.Clauses = append(cur.Clauses, cl)
 				last = cl
-			case "requires", "ensures", "captures", "assume", "lockinv":
+			case "requires", "ensures", "captures", "assume", "lockinv", "apply":
 				cl := &Clause{Kind: kw, Line: ln}
 				cl.Label, cl.Props, rest = parseLabel(rest)
 				cl.Expr = rest
@@ -307,7 +308,7 @@ func parseContracts(path string) (*Contracts, error) {
 					r3 = kind[i:] + " " + r3
 					kind = kind[:i]
 				}
-				if kind != "invariant" && kind != "decreases" {
+				if kind != "invariant" && kind != "decreases" && kind != "apply" {
 					return nil, fmt.Errorf("%s:%d: loop clause %q", path, ln, kind)
 				}
 				cl := &Clause{Kind: kind, Loop: k, Line: ln}
